@@ -80,7 +80,9 @@ Print Assumptions C06_arp_reparse.
 (* ---------------- UDP (src/wire/udp.rs) ----------------
    [sum_ok]/[sum_fill] are the RFC 1071 verification / fill functions for the address pair of
    the call (property C08); [udp_cksum_link] = "a filled-in checksum verifies and is a u16".
-   [tx]/[rx] are ChecksumCapabilities.udp.tx()/rx(); the theorems hold for every combination. *)
+   [tx]/[rx] are ChecksumCapabilities.udp.tx()/rx(); the round trip holds for every combination
+   under which a receiver can accept what the sender produced: a verifying receiver (rx) needs a
+   computed checksum (tx) unless both addresses are IPv4, where a zero checksum means "none". *)
 
 Theorem C06_udp_emit_no_panic : forall (sum_ok : list Z -> bool) sum_fill tx r payload b,
   udp_wf r payload = true -> blen b = udp_buffer_len r payload ->
@@ -97,6 +99,7 @@ Print Assumptions C06_udp_emit_ignores_old_bytes.
 
 Theorem C06_udp_roundtrip : forall sum_ok sum_fill is_v4 tx rx r payload b,
   udp_cksum_link sum_ok sum_fill -> udp_wf r payload = true ->
+  (rx = true -> tx = true \/ is_v4 = true) ->
   blen b = udp_buffer_len r payload ->
   exists bs, udp_emit sum_fill tx r payload b = Ok bs /\ blen bs = udp_buffer_len r payload /\
              udp_parse sum_ok is_v4 rx bs = Ok r /\ udp_payload bs = Ok payload.
@@ -105,6 +108,7 @@ Print Assumptions C06_udp_roundtrip.
 
 Theorem C06_udp_reparse : forall sum_ok sum_fill is_v4 tx rx bs r p,
   udp_cksum_link sum_ok sum_fill -> bytes_ok bs = true ->
+  (rx = true -> tx = true \/ is_v4 = true) ->
   udp_parse sum_ok is_v4 rx bs = Ok r -> udp_payload bs = Ok p ->
   udp_wf r p = true /\
   forall b, blen b = udp_buffer_len r p ->
